@@ -1299,7 +1299,9 @@ def adaptor_chain(body, pv, op):
     return chain
 
 
-HARD_TRUNCATIONS = {"take", "skip", "step_by", "take_while", "skip_while", "nth", "map_while", "last", "chunks", "windows", "truncate", "pop", "split_off", "drain"}
+# `pop` / `drain` are not listed: a work list emptied with `while let Some(x) = stack.pop()` and the tail drains of a sorted merge
+# process every element
+HARD_TRUNCATIONS = {"take", "skip", "step_by", "take_while", "skip_while", "nth", "map_while", "last", "chunks", "windows", "truncate", "split_off"}
 
 
 def hard_truncations(prog, body, allow=()):
@@ -1635,3 +1637,65 @@ def check_iterator_delegations(ck, rule, prog, file_rx, floor=0):
     if floor:
         ck.floor(rule, "iterator wrappers delegating the protocol", len(ds), floor)
     return len(ds)
+
+
+# ---------------------------------------------------------------------------------------------------------------
+# accessor fidelity: a method named after a field returns THAT field, not a sibling of the same type
+
+GETTER_ALIAS = {
+    ("term::information_content::InformationContent", "omim_disease"): "omim",
+    ("term::information_content::InformationContent", "orpha_disease"): "orpha",
+    ("stats::linkage::cluster::Cluster", "lhs"): "idx1",
+    ("stats::linkage::cluster::Cluster", "rhs"): "idx2",
+    ("stats::linkage::cluster::Cluster", "len"): "size",
+    ("stats::Enrichment", "id"): "annotation",
+    ("stats::SampleSet", "len"): "size",
+    ("annotations::gene::Gene", "hpo_terms"): "hpos",
+    ("annotations::gene::Gene", "symbol"): "name",
+    ("annotations::omim_disease::OmimDisease", "hpo_terms"): "hpos",
+    ("annotations::orpha_disease::OrphaDisease", "hpo_terms"): "hpos",
+    ("ontology::comparison::HpoTermDelta", "id"): "term_id",
+    ("ontology::comparison::AnnotationDelta", "changed_name"): "names",
+}
+
+
+def getter_findings(prog, file_rx=r".*"):
+    """methods `fn f(&self | &mut self)` / `fn f_mut(&mut self)` of a crate struct that has a field `f`:
+    list of dict(body, field, got (fields of self the result derives from), verdict True|False|None)
+    False: the result derives from another field of the SAME TYPE and not from `f` (copy-paste between siblings)."""
+    from prov import Prov, field_names
+    pv = Prov(prog, inline=False)
+    out = []
+    for b in sorted(prog.production(), key=lambda b: b.id):
+        if b.kind != "AssocFn" or b.nargs != 1 or not b.impl_self or not re.search(file_rx, b.file or ""):
+            continue
+        adt = b.impl_self.get("adt")
+        a = prog.adts.get(adt)
+        if not a or a.get("enum"):
+            continue
+        ftypes = {fl["name"]: fl["ty"] for v in a["variants"] for fl in v["fields"]}
+        base = re.sub(r"_mut$", "", b.name or "")
+        base = GETTER_ALIAS.get((adt, base), base)
+        if base not in ftypes:
+            continue
+        got = field_names(pv.of_return(b), adt) & set(ftypes)
+        if base in got:
+            verdict = True
+        else:
+            same = [g for g in got if ftypes[g] == ftypes[base]]
+            verdict = False if same else None
+        out.append({"body": b, "field": base, "got": got, "verdict": verdict})
+    return out
+
+
+def check_getters(ck, rule, prog, file_rx, floor=0):
+    n = 0
+    for g in getter_findings(prog, file_rx):
+        if g["verdict"] is None:
+            continue
+        n += 1
+        b = g["body"]
+        ck.ob(rule, "getter/%s" % b.short, g["verdict"], "%s returns %s" % (b.short, ("its field `%s`" % g["field"]) if g["verdict"] else ("the field `%s` (same type) instead of `%s`" % ("/".join(sorted(g["got"])), g["field"]))), where=b.where())
+    if floor:
+        ck.floor(rule, "accessors named after a field", n, floor)
+    return n
